@@ -295,3 +295,35 @@ for _p in ("C01", "C02", "C04", "C05", "C07", "C14", "C18"):
 LAT_SUITE = {"kind": "oracle", "nvh_suite": "lat", "cases": {"quick": 1500, "thorough": 40000}}
 for _p in ("C01", "C05", "C12"):
     PROPS[_p]["suites"]["lat"] = dict(LAT_SUITE, oracle_tags=[_p])
+
+
+PROPS["C11"] = {
+    "theorems": ["Narwhal.Theorems.C11"],
+    "audit_files": ["Narwhal/Model/Codec.lean", "Narwhal/Lemmas/CodecValues.lean"],
+    "expect_theorems": ["Narwhal.Codec.C11_decode_never_panics", "Narwhal.Codec.C11_value_roundtrip", "Narwhal.Codec.C11_encStr_refuses",
+                        "Narwhal.Codec.C11_param_name_roundtrip", "Narwhal.Codec.C11_param_count_roundtrip",
+                        "Narwhal.Codec.C11_encode_one_line", "Narwhal.Codec.schema_ok"],
+    "suites": {"codec": {"kind": "lines", "nvh_suite": "codec", "driver_suite": "codec", "op_prefixes": ["dec", "encs"],
+                         "cases": {"quick": 30000, "thorough": 400000}, "thorough_args": {"exhaustive": 1}, "oracle_tags": ["C11"]}},
+    "rule": "lines built from the regenerated schema for all 45 kinds (fields included / omitted / duplicated / shuffled, five space bytes, vector "
+            "counts right, wrong, 0, +n, huge; values: boundary integers with signs and leading zeros, booleans, strings over an adversarial alphabet "
+            "(all whitespace bytes, backslash runs, the four delimiters, LF, NUL, multi-byte UTF-8, invalid UTF-8), escaped with every delimiter, "
+            "unterminated), random mutations and truncations of such lines, and arbitrary UTF-8 strings straight into the value writer; thorough adds every "
+            "string of up to 3 alphabet symbols and every 2-byte tail; distinct = distinct observations",
+    "trusted_base": ["modelled, not verified: protocol/src/{serialize,deserialize}.rs, the code generated by protocol-macros (encode order, decode matching, "
+                     "validation), Message::{from_name,name,validate_parameters}",
+                     "the schema table is regenerated from message.rs by the translator (syn) and from the enum parsers by evaluation; "
+                     "std: str::parse for unsigned integers and bool, str::from_utf8 (modelled by hand, compared on every run)"],
+    "level_text": "Proved in Lean for every byte string: deserialize returns a message or an error and the only overflow-checked arithmetic (the value-count "
+                  "decrement) is never reached with zero; for every value of every field type (all strings the encoder accepts, all integers, both "
+                  "booleans) and every continuation of the line the scanner reads back exactly the value written; parameter names and value counts "
+                  "round-trip; the encoder refuses exactly the strings it cannot write losslessly; every accepted message is written as exactly one "
+                  "LF-terminated line (all kinds of any well-formed schema; well-formedness of the schema regenerated from message.rs is re-decided by the "
+                  "kernel on every run). The composition to whole messages (parameter loop + field assignment) is stated (C11_roundtrip_full) and "
+                  "validated, not yet proved: every message the real decoder accepts is re-encoded and decoded again by an implementation-side oracle, "
+                  "and model and code agree byte for byte in both directions.",
+    "level_note": "Partial at message level: the whole-message round trip is covered by correspondence + oracle, the proof covers values, names, counts, "
+                  "totality, panic-freedom and the one-line property. Encoding the same message twice gives the same bytes because serialize is a pure "
+                  "function of the message (checked by the oracle).",
+    "assumptions": ["output buffer capacity only decides MessageTooLarge", "UTF-8 validity of Rust strings (type invariant)"],
+}
